@@ -316,8 +316,9 @@ def eqv_list(a, b):
     return len(a) == len(b) and all(x == y for x, y in zip(a, b))
 
 
-def mint_rule(ctx):
-    """optional `mint` conversions keep every element in its place (vectors, points, quaternion, row- and column-matrices for both layouts)"""
+def mint_rule(ctx, prefix='c20', only_kinds=None):
+    """optional `mint` conversions keep every element in its place (vectors, points, quaternion, row- and column-matrices for both layouts).
+    C03 runs the matrix part and C05 the quaternion part under their own keys (the conversions are part of what those properties state)."""
     roots = []; meta = {}
 
     def add(name, code, **m):
@@ -333,6 +334,7 @@ def mint_rule(ctx):
                 add('r_mint_into_%s_%s%d' % (mm, L, n), 'pub fn r_mint_into_%s_%s%d(m: %s%d<f32>) -> mint::%s<f32> { m.into() }' % (mm, L, n, L, n, mm), kind='minto', n=n, l=L, rowwise=rowwise)
     add('r_mint_from_quat', 'pub fn r_mint_from_quat(q: mint::Quaternion<f32>) -> Quaternion<f32> { Quaternion::from(q) }', kind='qfrom', n=4)
     add('r_mint_into_quat', 'pub fn r_mint_into_quat(q: Quaternion<f32>) -> mint::Quaternion<f32> { q.into() }', kind='qinto', n=4)
+    if only_kinds: roots = [r for r in roots if meta[r.name]['kind'] in only_kinds]
     sc = ctx.scan(roots, ['std', 'mint'], extra_deps='mint = "0.5"', extra_prelude='extern crate mint;\n')
     if sc.compile_error: return
     done = 0
@@ -340,7 +342,7 @@ def mint_rule(ctx):
         rs = sc.get(r.name); m = meta[r.name]
         if rs is None or not rs.ok: continue
         done += 1
-        key = 'c20/' + r.name[2:]; w = r.code; n = m['n']; k = m['kind']
+        key = prefix + '/' + r.name[2:]; w = r.code; n = m['n']; k = m['kind']
         try:
             p = rs.only()
             if k == 'v':
@@ -358,7 +360,8 @@ def mint_rule(ctx):
                 vec_eq(ctx, key, p.ret, [sym('a0.v.x'), sym('a0.v.y'), sym('a0.v.z'), sym('a0.s')], 'perm: mint quaternion (vector part v, scalar s) -> (x, y, z, w)', w)
             elif k == 'qinto':
                 got = [str(x) for x in leaves(p.ret)]
-                ctx.ob(key, sorted(got) == sorted(['a0.x', 'a0.y', 'a0.z', 'a0.w']) and got.index('a0.w') in (0, 3), 'perm: quaternion -> mint quaternion keeps the vector part in order and w as the scalar', w, 'v=(x,y,z), s=w', got)
+                # mint::Quaternion { v: Vector3, s }: the leaves are v.x, v.y, v.z, s in this order
+                ctx.ob(key, got == ['a0.x', 'a0.y', 'a0.z', 'a0.w'], 'perm: quaternion -> mint quaternion: v = (x, y, z), s = w', w, 'v=(x,y,z), s=w', got)
         except (AssertionError, KeyError, ValueError, TypeError, IndexError, ZeroDivisionError, AttributeError) as e:
             ctx.ob(key + '/paths', False, 'branch-free conversion', w, 'one path', str(e))
     ctx.floor('mint conversion roots analysed', done, len(roots))
